@@ -14,12 +14,13 @@ import (
 // TestPreOak drives the regime the fork trees cannot reach: a network whose Oak difficulty hardfork
 // is late (height 1500), so that the pre-Oak retargeting (every 500 blocks, from the timestamp of the
 // 1000th ancestor, served by DBStore.AncestorTimestamp) is active on a chain of 1503 real blocks.
-//   C01: after every block the reported tip state is byte-equal to the independent ledger's state
-//        (which computes ancestor timestamps itself), at the retarget and hardfork heights above all;
-//   C02: a node that sits on its own 3-block fork and receives the whole chain in ONE AddBlocks call
-//        (ancestors not on its best chain: the walk-back path of AncestorTimestamp) ends on the same
-//        tip and state as the node that saw the chain linearly;
-//   C04: every ApplyUpdate a subscriber receives carries exactly the state the manager holds for it.
+//
+//	C01: after every block the reported tip state is byte-equal to the independent ledger's state
+//	     (which computes ancestor timestamps itself), at the retarget and hardfork heights above all;
+//	C02: a node that sits on its own 3-block fork and receives the whole chain in ONE AddBlocks call
+//	     (ancestors not on its best chain: the walk-back path of AncestorTimestamp) ends on the same
+//	     tip and state as the node that saw the chain linearly;
+//	C04: every ApplyUpdate a subscriber receives carries exactly the state the manager holds for it.
 func TestPreOak(t *testing.T) {
 	res := hx.NewResult()
 	defer res.Write()
@@ -38,6 +39,12 @@ func preOak(t *testing.T, res *hx.Result, oak uint64) {
 	mismatch := func(sig, desc string) {
 		res.Mismatch(sig, fmt.Sprintf("pre-Oak chain (seed %d, Oak hardfork at %d): %s", seed, oak, desc), map[string]any{"kind": "preoak", "seed": seed, "oak": oak})
 	}
+	defer func() {
+		// a panic inside the manager or the store is a behaviour of the code under test
+		if r := recover(); r != nil {
+			mismatch("audit:c01:panic", fmt.Sprintf("the node panicked: %v", r))
+		}
+	}()
 	n := hx.EnvInt("VERIF_PREOAK_N", 1503)
 	l := mat.NewLedger(w.N, w.Genesis)
 	var blocks []types.Block
